@@ -1,5 +1,6 @@
 import Rfsm.Model.Wire
 import Driver.Desc
+import Driver.Codec
 /-!
 The model driver: one request per line on stdin, one reply per line on stdout.
 `<family> <op> <args…>`; payload strings are hex encoded.  Unknown or malformed requests answer
@@ -10,6 +11,7 @@ open Rfsm.Wire
 def dispatch (line : String) : String :=
   match words line with
   | "desc" :: rest => Driver.Desc.handle rest
+  | "codec" :: rest => Driver.Codec.handle rest
   | ["ping"] => "pong"
   | _ => "bad-op"
 
